@@ -12,6 +12,7 @@ import json
 import multiprocessing
 import os
 import pathlib
+import shutil
 import time
 import warnings
 
@@ -546,7 +547,6 @@ def run_transpose_batch(ctx, cases, workdir, count_key):
         for p in workdir.iterdir():
             if p.name not in ('src.h5', 'dst.h5'):
                 if p.is_dir():
-                    import shutil
                     shutil.rmtree(p, ignore_errors=True)
                 else:
                     p.unlink()
@@ -727,9 +727,15 @@ def exhaustive(ctx):
             continue
         obs = run_transpose_impl(case, work)
         observed.append((obs, take_traces()))
+        # what a case left behind is part of ITS observation (obs['left']); it must not
+        # be charged to the cases that follow (a failed parallel run can leave its
+        # scratch directory: the clean-up races against the surviving workers)
         for p in work.iterdir():
-            if p.name not in ('src.h5', 'dst.h5') and p.is_file():
-                p.unlink()
+            if p.name not in ('src.h5', 'dst.h5'):
+                if p.is_dir():
+                    shutil.rmtree(p, ignore_errors=True)
+                else:
+                    p.unlink()
     mcases = []
     for case, (obs, traces) in zip(cases, observed):
         tgb = traces[0]['max_gb'] if traces else None
